@@ -16,10 +16,10 @@ func init() {
 		ID:    "C02",
 		Level: "exploration",
 		Rule: "streams built by the independent reference multiplexer from random models (1..8 PIDs: PAT, PMT PIDs announced by it, DVB SI PIDs, PES PIDs; bounded and unbounded PES; " +
-			"PSI units of 1..n sections over 1..6+ packets; pointer_field 0..n; adaptation stuffing in any packet; trailing 0xFF or exact fit; random interleaving) demultiplexed with NextData; " +
+			"PSI units of 1..n sections over 1..6+ packets; pointer_field 0..n; adaptation stuffing in any packet; trailing 0xFF or exact fit; random interleaving; PMT units that start before and end after the PAT announcing them) demultiplexed with NextData; " +
 			"plus enumeration of every first-chunk and last-chunk size (thorough: every pair) of selected units; distinct = hash of the stream bytes; non-trivial = ≥2 units delivered on ≥2 PIDs or a multi-packet unit",
 		Assumptions: []string{"units are packet aligned and start with payload_unit_start; on PAT/PMT PIDs an interior section boundary never coincides with a packet boundary (ISO 13818-1 requires payload_unit_start for a section start)",
-			"the PAT unit announcing a PMT PID is complete before the first packet of that PID", "table contents are simple and carry the unit id (field fidelity is C13's subject)",
+			"the PAT unit announcing a PMT PID is complete before the final packet of that PID's first unit (stage straddle: before the first packet elsewhere)", "table contents are simple and carry the unit id (field fidelity is C13's subject)",
 			"discontinuity_indicator is never set (C06 covers it)"},
 		Shards: 32,
 		Run:    runC02,
@@ -35,6 +35,7 @@ func init() {
 			need(m, &out, "multi_section_units", 100)
 			need(m, &out, "exhaustive_split_streams", 1000)
 			need(m, &out, "long_streams", 6)
+			need(m, &out, "pmt_units_straddling_their_pat", 300)
 			need(m, &out, "streams_in_larger_framing", 100)
 			return out
 		},
@@ -262,6 +263,68 @@ func runC02(c *mon.Ctx) {
 		if i < 2 {
 			c.Sample("streams", map[string]any{"pids": m.PIDs, "units": len(s.Units), "packets": len(s.Packets), "head": mon.Hex(s.Bytes, 64)})
 		}
+	}
+	// a PMT unit that starts before the PAT announcing its PID is complete and ends after it: when its final packet is read the PID
+	// is known, so the call that reads that packet must return the table (the packets before the PAT wait in the PID's queue)
+	nst := c.Pick(400, 20000)
+	for i := int64(0); i < nst; i++ {
+		if !c.Mine("straddle", i) {
+			continue
+		}
+		r := c.Rng("straddle", i)
+		var m *gen.Model
+		var pid uint16
+		for pid == 0 {
+			m = gen.RandomModel(r, gen.ModelOpts{MaxPES: 2, MaxPMT: 3, MaxSI: 1, MaxUnits: 3, RichAF: i%2 == 0})
+			for _, p := range m.PIDs {
+				if p != 0 && m.Early[p] && m.Hold[p] > 0 && len(m.PerPID[p]) > 0 && len(m.PerPID[p][0].Plan) >= 2 {
+					pid = p
+					break
+				}
+			}
+		}
+		order := gen.RandomOrder(r, m.Counts(), m.PIDs, m.Hold)
+		// move the first j packets of the PMT PID in front of the hold-th PAT packet
+		j := 1 + r.IntN(len(m.PerPID[pid][0].Plan)-1)
+		var rest []uint16
+		moved := 0
+		for _, p := range order {
+			if p == pid && moved < j {
+				moved++
+				continue
+			}
+			rest = append(rest, p)
+		}
+		pats, cut := 0, 0
+		for k, p := range rest {
+			if p == 0 {
+				pats++
+				if pats == m.Hold[pid] {
+					cut = k // the PAT packet that completes the announcing unit
+					break
+				}
+			}
+		}
+		var out []uint16
+		ins := make([]int, j)
+		for k := range ins {
+			ins[k] = r.IntN(cut + 1)
+		}
+		for k := 0; k <= len(rest); k++ {
+			for _, at := range ins {
+				if at == k {
+					out = append(out, pid)
+				}
+			}
+			if k < len(rest) {
+				out = append(out, rest[k])
+			}
+		}
+		s := m.BuildOrder(out)
+		run := RunDemux(s.Bytes, baseCfg("data"))
+		checkStreamDelivery(c, "C02", "straddle", i, s, m, run, true)
+		c.Count("pmt_units_straddling_their_pat")
+		c.Case(mon.HashBytes("c02straddle", s.Bytes), true)
 	}
 	// long streams: thousands of packets, continuity counters wrapping many times, many units per PID
 	nlong := c.Pick(6, 80)
